@@ -928,6 +928,11 @@ void BW_MidiSequencer::buildTimeLine(const std::vector<MidiEvent> &tempos,
                     t = postDelay * currentTempo;
                     posPrev->timeDelay += t.value();
 
+                    // The delay of a row that is followed by a lone End-of-Track was cleared
+                    // (end silence skipping): a tempo change in between must not bring it back
+                    if(posPrev->delay == 0)
+                        posPrev->timeDelay = 0.0;
+
                     // Store Common time delay
                     posPrev->time = time;
                     time += posPrev->timeDelay;
